@@ -107,6 +107,21 @@ impl Index {
     Ok(out)
   }
 
+  /// The address index as `(script pubkey, outpoint)` pairs.
+  pub fn verif_address_index(&self) -> Result<Vec<(Vec<u8>, OutPoint)>> {
+    let rtx = self.database.begin_read()?;
+    let mut out = Vec::new();
+
+    for result in rtx.open_multimap_table(SCRIPT_PUBKEY_TO_OUTPOINT)?.iter()? {
+      let (key, values) = result?;
+      for value in values {
+        out.push((key.value().to_vec(), OutPoint::load(value?.value())));
+      }
+    }
+
+    Ok(out)
+  }
+
   /// Ids of the persistent savepoints currently held by the database.
   pub fn verif_savepoints(&self) -> Result<Vec<u64>> {
     let wtx = self.database.begin_write()?;
